@@ -37,44 +37,47 @@ struct IN_t nondet_IN(void);
 // reasoning linear): directives shorter than 3 tokens are followed by a null directive `#`
 // (C11 6.10.7) or by the junk token; a text line is `t_i u u`.  Sequences shorter than NITEMS
 // lines are covered because text lines are neutral.
-static char sp_hash[] = "#", sp_if[] = "if", sp_ifdef[] = "ifdef", sp_ifndef[] = "ifndef", sp_elif[] = "elif",
-            sp_else[] = "else", sp_endif[] = "endif", sp_0[] = "0", sp_1[] = "1", sp_X[] = "X", sp_Y[] = "Y",
-            sp_J[] = "J", sp_u[] = "u";
-static char sp_text[NITEMS][3];
+// all spellings live in ONE char object (single-object pointers keep cbmc's dereferencing linear)
+enum { O_HASH = 0, O_IF = 2, O_IFDEF = 5, O_IFNDEF = 11, O_ELIF = 18, O_ELSE = 23, O_ENDIF = 28, O_0 = 34, O_1 = 36,
+       O_X = 38, O_Y = 40, O_J = 42, O_U = 44, O_TEXT = 46 };
+static char pool[O_TEXT + 3 * NITEMS + 1] = "#\0if\0ifdef\0ifndef\0elif\0else\0endif\0" "0\0" "1\0X\0Y\0J\0u\0";
+#define sp_J (pool + O_J)
+#define sp_X (pool + O_X)
+#define sp_Y (pool + O_Y)
 #define NTOK (3 * NITEMS)
 static Token toks[NTOK + 1];    // toks[NTOK] is EOF
 #define eof_tok toks[NTOK]
 
-static void mk(Token *t, TokenKind k, char *sp, int len, bool bol) {
-  t->kind = k; t->loc = sp; t->len = len; t->at_bol = bol; t->has_space = !bol; t->next = t + 1;
+static void mk(Token *t, TokenKind k, int off, int len, bool bol) {
+  t->kind = k; t->loc = pool + off; t->len = len; t->at_bol = bol; t->has_space = !bol; t->next = t + 1;
   t->file = &verif_file; t->line_no = 1;
 }
 
 static Token *build(void) {
-  eof_tok.kind = TK_EOF; eof_tok.loc = sp_hash + 1; eof_tok.len = 0; eof_tok.at_bol = true; eof_tok.file = &verif_file;
+  eof_tok.kind = TK_EOF; eof_tok.loc = pool + 1; eof_tok.len = 0; eof_tok.at_bol = true; eof_tok.file = &verif_file;
   for (int i = 0; i < NITEMS; i++) {
     int kind = IN.it[i].kind;
     bool junk = IN.it[i].junk;
     Token *t = &toks[3 * i];
-    sp_text[i][0] = 't'; sp_text[i][1] = '0' + i; sp_text[i][2] = 0;
+    pool[O_TEXT + 3 * i] = 't'; pool[O_TEXT + 3 * i + 1] = '0' + i; pool[O_TEXT + 3 * i + 2] = 0;
     if (kind == I_TEXT) {
-      mk(t, TK_IDENT, sp_text[i], 2, true);
-      mk(t + 1, TK_IDENT, sp_u, 1, false);
-      mk(t + 2, TK_IDENT, sp_u, 1, false);
+      mk(t, TK_IDENT, O_TEXT + 3 * i, 2, true);
+      mk(t + 1, TK_IDENT, O_U, 1, false);
+      mk(t + 2, TK_IDENT, O_U, 1, false);
     } else {
-      mk(t, TK_PUNCT, sp_hash, 1, true);
+      mk(t, TK_PUNCT, O_HASH, 1, true);
       if (kind == I_IF || kind == I_ELIF) {
-        mk(t + 1, TK_IDENT, kind == I_IF ? sp_if : sp_elif, kind == I_IF ? 2 : 4, false);
-        mk(t + 2, TK_PP_NUM, IN.it[i].bit ? sp_1 : sp_0, 1, false);
+        mk(t + 1, TK_IDENT, kind == I_IF ? O_IF : O_ELIF, kind == I_IF ? 2 : 4, false);
+        mk(t + 2, TK_PP_NUM, IN.it[i].bit ? O_1 : O_0, 1, false);
         t[2].val = IN.it[i].bit;
       } else if (kind == I_IFDEF || kind == I_IFNDEF) {
         // (a junk token after the operand would need a 4th slot: junk is only modelled on #else/#endif)
-        mk(t + 1, TK_IDENT, kind == I_IFDEF ? sp_ifdef : sp_ifndef, kind == I_IFDEF ? 5 : 6, false);
-        mk(t + 2, TK_IDENT, IN.it[i].name ? sp_Y : sp_X, 1, false);
+        mk(t + 1, TK_IDENT, kind == I_IFDEF ? O_IFDEF : O_IFNDEF, kind == I_IFDEF ? 5 : 6, false);
+        mk(t + 2, TK_IDENT, IN.it[i].name ? O_Y : O_X, 1, false);
       } else {
-        mk(t + 1, TK_IDENT, kind == I_ELSE ? sp_else : sp_endif, kind == I_ELSE ? 4 : 5, false);
-        if (junk) mk(t + 2, TK_IDENT, sp_J, 1, false);
-        else mk(t + 2, TK_PUNCT, sp_hash, 1, true);      // null directive line
+        mk(t + 1, TK_IDENT, kind == I_ELSE ? O_ELSE : O_ENDIF, kind == I_ELSE ? 4 : 5, false);
+        if (junk) mk(t + 2, TK_IDENT, O_J, 1, false);
+        else mk(t + 2, TK_PUNCT, O_HASH, 1, true);      // null directive line
       }
     }
   }
